@@ -146,10 +146,18 @@ def placement_from_desc(d):
     return [(x, a, [(u, s) for u, s in ml]) for x, a, ml in d]
 
 
-def build(m, placement):
+def uncalibrated(m):
+    """Every fourth member has time_units = 'uncalibrated': branch-mode statistics are then refused (documented),
+    site and node mode never look at node times and must be unaffected."""
+    return (m.N + m.G + len(m.edges()) + sum(m.flags)) % 4 == 3
+
+
+def build(m, placement, allow_uncalibrated=False):
     tc = m.tables()
     if placement:
         MU.add_sites(tc, m, placement)
+    if allow_uncalibrated and uncalibrated(m):
+        tc.time_units = "uncalibrated"
     ts = tc.tree_sequence()
     rts = RefTS.from_tables(tc)
     return ts, rts
@@ -1629,8 +1637,22 @@ def shards(tier, seed):
 def check_case(part, m, placement, opt, acc):
     case = {"part": part, "member": m.desc(), "placement": placement_desc(placement), "opt": opt}
     acc.enter(case)
-    ts, rts = build(m, placement)
+    ts, rts = build(m, placement, allow_uncalibrated=part == "gen")
     modes = opt.get("modes", ["site", "branch", "node"])
+    if ts.time_units == "uncalibrated":
+        import tskit
+
+        if "branch" in modes:
+            acc.ev(1, True)
+            try:
+                ts.diversity(mode="branch")
+                acc.fail("uncalibrated:branch_accepted", "branch-mode diversity on time_units='uncalibrated' did not raise", case)
+            except tskit.LibraryError:
+                pass
+        modes = [x for x in modes if x != "branch"]
+        acc.count("uncalibrated_members")
+        if not modes:
+            return
     full = bool(opt.get("full"))
     if part == "gen":
         check_general(ts, rts, modes, acc, case, opt.get("wlimit"),
